@@ -103,6 +103,7 @@ DRV_PARTS = {
     'main': ('main.cpp', []),
     'codec': ('codec_drv.cpp', []),
     'heap': ('heap_drv.cpp', ['-DDRV_HEAP']),
+    'threads': ('threads_drv.cpp', ['-DDRV_THREADS']),
     'xml': ('xml_drv.cpp', ['-DDRV_XML']),
     'acc': ('acc_drv.cpp', ['-DDRV_ACC']),
 }
